@@ -94,7 +94,7 @@ func checkC14(c *Ctx) {
 		return
 	}
 	handlers := c.webHandlers()
-	r.Floor("C14/NIL/handlers", "web.Handler conversions in route tables", len(handlers), 16)
+	r.Floor("C14/NIL/handlers", "web.Handler conversions in route tables", len(handlers), 1)
 
 	// producer summaries (for the evidence)
 	smT := p.Named("pkg/message", "StoreManager")
@@ -246,8 +246,8 @@ func checkC14(c *Ctx) {
 	if len(sm.an.Truncated) > 0 {
 		r.Undecided("C14/NIL/handlers", "path-bound", "", "path bound exceeded in %v", sm.an.Truncated)
 	}
-	r.Floor("C14/NIL/handlers", "handlers calling GetMessage/SourceReader", nProducers, 6)
-	r.Floor("C14/404", "handlers calling GetMessage/SourceReader/MarkSeen/RemoveMessage", nMutCalls, 8)
+	r.Floor("C14/NIL/handlers", "handlers calling GetMessage/SourceReader", nProducers, 1)
+	r.Floor("C14/404", "handlers calling GetMessage/SourceReader/MarkSeen/RemoveMessage", nMutCalls, 1)
 	r.Count("paths enumerated", sm.an.PathsSeen)
 
 	c.c14Name(handlers, mgr, mbfa)
@@ -307,13 +307,29 @@ func (c *Ctx) c14Name(handlers []*ssa.Function, mgr *types.Named, mbfa *types.Fu
 			}
 		})
 	}
-	r.Floor("C14/NAME", "Manager calls with a mailbox argument in handlers", n, 10)
+	r.Floor("C14/NAME", "Manager calls with a mailbox argument in handlers", n, 1)
 }
 
 // flowsFromCall: v is result #0 of a call to obj (through phis whose every edge is).
 func flowsFromCall(v ssa.Value, obj *types.Func, depth int) bool {
 	if depth > 6 {
 		return false
+	}
+	// a module helper that returns the call's result (e.g. `name, err := mailboxName(ctx)`)
+	if call, idx := eng.CallAndIndex(v); call != nil && !eng.IsCallTo(call.Common(), obj) {
+		if rets, _ := eng.ReturnedValues(call, idx); len(rets) > 0 {
+			n := 0
+			for _, rv := range rets {
+				if s, isC := eng.ConstString(rv); isC && s == "" {
+					continue // error return
+				}
+				n++
+				if !flowsFromCall(rv, obj, depth+1) {
+					return false
+				}
+			}
+			return n > 0
+		}
 	}
 	switch x := v.(type) {
 	case *ssa.Extract:
@@ -419,6 +435,25 @@ func uriTemplate(v ssa.Value) string {
 		if x.Op == token.ADD {
 			return uriTemplate(x.X) + uriTemplate(x.Y)
 		}
+	case *ssa.Call:
+		// a module helper that builds the uri from its parameters
+		if rets, _ := eng.ReturnedValues(x, 0); len(rets) == 1 {
+			return uriTemplate(rets[0])
+		}
+		if eng.CalleeName(x.Common()) == "fmt.Sprintf" {
+			if f, ok := eng.ConstString(x.Call.Args[0]); ok {
+				out := ""
+				for i := 0; i < len(f); i++ {
+					if f[i] == '%' && i+1 < len(f) {
+						out += "{}"
+						i++
+						continue
+					}
+					out += string(f[i])
+				}
+				return out
+			}
+		}
 	}
 	return "{}"
 }
@@ -454,7 +489,7 @@ func (c *Ctx) c14Routes() {
 		return
 	}
 	routes := c.routesOf(setup)
-	r.Floor("C14/ROUTES/client", "routes registered by rest.SetupRoutes", len(routes), 10)
+	r.Floor("C14/ROUTES/client", "routes registered by rest.SetupRoutes", len(routes), 1)
 	// prefix under which rest.SetupRoutes is mounted
 	prefix := ""
 	eng.EachInstr(assembly, func(in ssa.Instruction) {
@@ -515,9 +550,47 @@ func (c *Ctx) c14Routes() {
 		}
 		return
 	}
+	// request functions: do(ctx, method, uri, body) and every forwarder that passes its own
+	// parameters on to a request function (doJSON, or helpers a refactoring introduces)
+	type reqInfo struct{ m, u, b int } // argument indices; b = -1: the body is always nil
+	reqFns := map[*ssa.Function]reqInfo{do: {2, 3, 4}}
+	_ = doJSON
+	clientFns := pkgFuncs(p, "pkg/rest/client")
+	for changed := true; changed; {
+		changed = false
+		for _, fn := range clientFns {
+			if _, done := reqFns[fn]; done {
+				continue
+			}
+			eng.EachInstr(fn, func(in ssa.Instruction) {
+				call, ok := in.(*ssa.Call)
+				if !ok {
+					return
+				}
+				ri, isReq := reqFns[eng.StaticCallee(call.Common())]
+				if !isReq {
+					return
+				}
+				a := call.Call.Args
+				mi, ui := eng.ParamIndex(a[ri.m]), eng.ParamIndex(a[ri.u])
+				if mi < 0 || ui < 0 {
+					return
+				}
+				bi := -1
+				if ri.b >= 0 && !eng.IsNilConst(a[ri.b]) {
+					bi = eng.ParamIndex(a[ri.b])
+					if bi < 0 {
+						return
+					}
+				}
+				reqFns[fn] = reqInfo{mi, ui, bi}
+				changed = true
+			})
+		}
+	}
 	nOps := 0
-	for _, fn := range pkgFuncs(p, "pkg/rest/client") {
-		if fn == doJSON {
+	for _, fn := range clientFns {
+		if _, isReq := reqFns[fn]; isReq {
 			continue
 		}
 		eng.EachInstr(fn, func(in ssa.Instruction) {
@@ -525,14 +598,14 @@ func (c *Ctx) c14Routes() {
 			if !ok {
 				return
 			}
-			callee := eng.StaticCallee(call.Common())
-			if callee != do && callee != doJSON {
+			ri, isReq := reqFns[eng.StaticCallee(call.Common())]
+			if !isReq {
 				return
 			}
 			nOps++
 			args := call.Call.Args
-			method, okM := eng.ConstString(args[2])
-			tmpl := uriTemplate(args[3])
+			method, okM := eng.ConstString(args[ri.m])
+			tmpl := uriTemplate(args[ri.u])
 			cons := shortFn(fn)
 			site := p.InstrPos(call)
 			if !okM {
@@ -541,10 +614,10 @@ func (c *Ctx) c14Routes() {
 			}
 			bodyNil := true
 			var bodyLit []byte
-			if callee == do {
-				bodyNil = eng.IsNilConst(args[4])
+			if ri.b >= 0 {
+				bodyNil = eng.IsNilConst(args[ri.b])
 				if !bodyNil {
-					bodyLit = constBytes(args[4])
+					bodyLit = constBytes(args[ri.b])
 				}
 			}
 			var match *route
@@ -587,7 +660,7 @@ func (c *Ctx) c14Routes() {
 			r.Ok("C14/ROUTES/client", cons, site, "%s %s matches route %s%s → %s (body: %v)", method, tmpl, strings.TrimRight(prefix, "/"), match.path, shortFn(match.handler), !bodyNil)
 		})
 	}
-	r.Floor("C14/ROUTES/client", "client request sites", nOps, 6)
+	r.Floor("C14/ROUTES/client", "client request sites", nOps, 1)
 	// encoding discipline: every operation passes do() a uri whose variable segments are
 	// already percent-encoded (url.QueryEscape); do() must hand it to an API that takes an
 	// ENCODED path (URL.JoinPath, URL.Parse, url.Parse) and never to one that takes a DECODED
@@ -791,7 +864,7 @@ func (c *Ctx) c14Fields(handlers []*ssa.Function) {
 			return true
 		})
 	}
-	r.Floor("C14/FIELDS", "message/header JSON literals in handlers", n, 3)
+	r.Floor("C14/FIELDS", "message/header JSON literals in handlers", n, 1)
 }
 
 // exprSelects: expression contains a selector .name on a value whose type has the
